@@ -101,6 +101,9 @@ func main() {
 	if !run.Quick() {
 		kinds = []string{"empty", "evm", "kv", "valset"}
 	}
+	if v := os.Getenv("VERIF_C06_KINDS"); v != "" { // development only
+		kinds = strings.Split(v, ",")
+	}
 	start := time.Now()
 	// wall-clock budget of the enumeration (cap reported in the evidence): cases not
 	// started by then are skipped.  Normal load: quick ≈ 30 s, first level of the
